@@ -196,12 +196,12 @@ func TextMenu() []spec.Batch {
 	}}
 	fz2 := spec.Batch{Docs: []spec.Doc{
 		{ID: "z0", Fields: []spec.Field{
-			dv(fld("a", 2, tok("w", 0, loc(1), loc(2)), tok("x", 1))),
+			dv(stored(fld("a", 2, tok("w", 0, loc(1), loc(2)), tok("x", 1)), "zed")),
 			dv(fld("b", 0)), // doc values requested, no token at all
 		}},
 		{ID: "z1", Fields: []spec.Field{
 			dv(fld("a", 1, tok("w", 0, loc(3)), tok("v", 0))),
-			dv(fld("b", 0)),
+			dv(stored(fld("b", 0), "zb", 3)), // stored under the second field only
 		}},
 		{ID: "z2", Fields: []spec.Field{
 			dv(fld("a", 1, tok("w", 0))),
@@ -217,7 +217,7 @@ func TextMenu() []spec.Batch {
 		ab3,  // M6 three docs, a document without fields, duplicate id across segments (p0)
 		vb2,  // M7 same field list as M2/M3; frequencies, lengths and location values at varint boundaries
 		gap3, // M8 three fields: stored / indexed-only / stored (a gap between stored fields); seven stored values with array positions in one document
-		fz2,  // M9 same field list as M2/M3: a frequency-0 term with locations in two documents of one chunk; a doc-value field without any token
+		fz2,  // M9 same field list as M2/M3: a frequency-0 term with locations in two documents of one chunk; a doc-value field without any token; stored values under a in one document and under b in another
 	}
 }
 
